@@ -4,6 +4,7 @@ package main
 
 import (
 	"fmt"
+	"go/ast"
 	"go/token"
 	"go/types"
 	"sort"
@@ -18,107 +19,188 @@ var specHTMLBlock6 = strings.Fields(`address article aside base basefont blockqu
  fieldset figcaption figure footer form frame frameset h1 h2 h3 h4 h5 h6 head header hr html iframe legend li link main menu menuitem nav noframes
  ol optgroup option p param section source summary table tbody td tfoot th thead title tr track ul`)
 
-// stringTableOf: the elements of a package-level []string / [N]string variable as its initialiser stores them
-// (string constants, or atom constants converted with String()).
-func stringTableOf(p *Program, name string) ([]string, token.Pos, string) {
-	g, ok := p.CMs.Members[name].(*ssa.Global)
-	if !ok {
-		return nil, token.NoPos, "package-level variable " + name + " not found"
+// htmlConditionClosures reads the htmlBlockConditions literal: per entry its startCondition and endCondition functions.
+func htmlConditionClosures(p *Program) (starts, ends []*ssa.Function) {
+	cl := pkgVarLiteral(p, "htmlBlockConditions")
+	if cl == nil {
+		return nil, nil
 	}
-	initFn := p.CMs.Func("init")
-	if initFn == nil {
-		return nil, g.Pos(), "no package initialiser"
-	}
-	var backing ssa.Value
-	why := ""
-	eachInstr(initFn, func(in ssa.Instruction) {
-		st, ok := in.(*ssa.Store)
-		if !ok || st.Addr != ssa.Value(g) {
-			return
-		}
-		if sl, ok := st.Val.(*ssa.Slice); ok {
-			backing = sl.X
-		} else {
-			why = "initialised by something other than a slice literal"
-		}
-	})
-	// written anywhere else?
-	for _, fn := range p.Funcs {
-		if fn == initFn {
-			continue
-		}
-		eachInstr(fn, func(in ssa.Instruction) {
-			if st, ok := in.(*ssa.Store); ok && st.Addr == ssa.Value(g) {
-				why = "assigned outside the package initialiser (" + shortFuncName(fn) + ")"
-			}
-		})
-	}
-	if why != "" {
-		return nil, g.Pos(), why
-	}
-	al, ok := backing.(*ssa.Alloc)
-	if !ok {
-		return nil, g.Pos(), "backing array of the initialiser not found"
-	}
-	arr, ok := deref(al.Type()).Underlying().(*types.Array)
-	if !ok {
-		return nil, g.Pos(), "initialiser is not an array literal"
-	}
-	out := make([]string, arr.Len())
-	set := make([]bool, arr.Len())
-	for _, r := range refsOf(al) {
-		ia, ok := r.(*ssa.IndexAddr)
+	for _, el := range cl.Elts {
+		inner, ok := el.(*ast.CompositeLit)
 		if !ok {
+			starts, ends = append(starts, nil), append(ends, nil)
 			continue
 		}
-		idx, ok := constInt(ia.Index)
-		if !ok || idx < 0 || idx >= arr.Len() {
-			return nil, g.Pos(), "element stored at a non-constant index"
+		var st, en *ssa.Function
+		for i, fe := range inner.Elts {
+			if kv, ok := fe.(*ast.KeyValueExpr); ok {
+				if id, ok := kv.Key.(*ast.Ident); ok {
+					switch id.Name {
+					case "startCondition":
+						st = ssaFuncOfExpr(p, kv.Value)
+					case "endCondition":
+						en = ssaFuncOfExpr(p, kv.Value)
+					}
+				}
+				continue
+			}
+			switch i {
+			case 0:
+				st = ssaFuncOfExpr(p, fe)
+			case 1:
+				en = ssaFuncOfExpr(p, fe)
+			}
 		}
-		for _, rr := range refsOf(ia) {
-			st, ok := rr.(*ssa.Store)
-			if !ok || st.Addr != ssa.Value(ia) {
-				continue
-			}
-			if s, ok := constString(st.Val); ok {
-				out[idx], set[idx] = s, true
-				continue
-			}
-			if call, ok := st.Val.(*ssa.Call); ok {
-				if f := call.Call.StaticCallee(); f != nil && f.String() == "(golang.org/x/net/html/atom.Atom).String" && len(call.Call.Args) == 1 {
-					if cst, ok := call.Call.Args[0].(*ssa.Const); ok {
-						if n := namedOf(cst.Type()); n != nil && n.Obj().Pkg() != nil {
-							if nm := kindConstName(n.Obj().Pkg(), n, cst); nm != "" {
-								out[idx], set[idx] = strings.ToLower(nm), true
-								continue
-							}
+		starts, ends = append(starts, st), append(ends, en)
+	}
+	return
+}
+
+// tableStringsUsedBy: every string the package initialiser stores into the package-level slice/array tables that fn
+// (or a module function it calls directly) loads: string constants and names of atom constants, at any depth of
+// element structure (a table of pairs counts with both members).
+func tableStringsUsedBy(p *Program, fn *ssa.Function) (out []string, why string, pos token.Pos) {
+	if fn == nil || fn.Blocks == nil {
+		return nil, "condition function not resolved", token.NoPos
+	}
+	pos = fn.Pos()
+	globals := map[*ssa.Global]bool{}
+	var scan func(f *ssa.Function, depth int)
+	scan = func(f *ssa.Function, depth int) {
+		for _, g := range withAnons(f) {
+			eachInstr(g, func(in ssa.Instruction) {
+				for _, op := range in.Operands(nil) {
+					if op == nil || *op == nil {
+						continue
+					}
+					if gl, ok := (*op).(*ssa.Global); ok && gl.Pkg == p.CMs {
+						switch deref(gl.Type()).Underlying().(type) {
+						case *types.Slice, *types.Array:
+							globals[gl] = true
 						}
 					}
 				}
+				if depth < 1 {
+					if ci, ok := in.(ssa.CallInstruction); ok {
+						if cal := ci.Common().StaticCallee(); cal != nil && p.InModule(cal) && cal.Blocks != nil {
+							scan(cal, depth+1)
+						}
+					}
+				}
+			})
+		}
+	}
+	scan(fn, 0)
+	initFn := p.CMs.Func("init")
+	if initFn == nil {
+		return nil, "no package initialiser", pos
+	}
+	for gl := range globals {
+		// written outside the initialiser?
+		for _, f := range p.Funcs {
+			if f == initFn {
+				continue
 			}
-			return nil, st.Pos(), "an element is neither a string constant nor an atom constant's name"
+			eachInstr(f, func(in ssa.Instruction) {
+				if st, ok := in.(*ssa.Store); ok && st.Addr == ssa.Value(gl) {
+					why = "table " + gl.Name() + " is assigned outside the package initialiser (" + shortFuncName(f) + ")"
+				}
+			})
 		}
-	}
-	for i, ok := range set {
-		if !ok {
-			return nil, g.Pos(), fmt.Sprintf("element %d has no value", i)
+		var backing ssa.Value
+		eachInstr(initFn, func(in ssa.Instruction) {
+			if st, ok := in.(*ssa.Store); ok && st.Addr == ssa.Value(gl) {
+				if sl, ok := st.Val.(*ssa.Slice); ok {
+					backing = sl.X
+				}
+			}
+		})
+		var root ssa.Value = gl
+		if backing != nil {
+			root = backing
 		}
+		var walk func(addr ssa.Value, depth int)
+		walk = func(addr ssa.Value, depth int) {
+			if depth > 4 {
+				return
+			}
+			var refs []ssa.Instruction
+			if r := addr.Referrers(); r != nil {
+				refs = *r
+			} else {
+				// a global has no referrer list: scan the initialiser
+				eachInstr(initFn, func(in ssa.Instruction) {
+					for _, op := range in.Operands(nil) {
+						if op != nil && *op == addr {
+							refs = append(refs, in)
+						}
+					}
+				})
+			}
+			for _, r := range refs {
+				switch x := r.(type) {
+				case *ssa.IndexAddr:
+					if x.X == addr {
+						walk(x, depth+1)
+					}
+				case *ssa.FieldAddr:
+					if x.X == addr {
+						walk(x, depth+1)
+					}
+				case *ssa.Store:
+					if x.Addr != addr {
+						continue
+					}
+					if sv, ok := constString(x.Val); ok {
+						out = append(out, sv)
+						continue
+					}
+					if call, ok := x.Val.(*ssa.Call); ok {
+						if f := call.Call.StaticCallee(); f != nil && f.String() == "(golang.org/x/net/html/atom.Atom).String" && len(call.Call.Args) == 1 {
+							if cst, ok := call.Call.Args[0].(*ssa.Const); ok {
+								if n := namedOf(cst.Type()); n != nil && n.Obj().Pkg() != nil {
+									if nm := kindConstName(n.Obj().Pkg(), n, cst); nm != "" {
+										out = append(out, strings.ToLower(nm))
+										continue
+									}
+								}
+							}
+						}
+					}
+					if _, isSlice := x.Val.(*ssa.Slice); isSlice {
+						continue
+					}
+					if bt, ok := x.Val.Type().Underlying().(*types.Basic); ok && bt.Info()&types.IsString != 0 {
+						why = "an element of table " + gl.Name() + " is neither a string constant nor an atom constant's name"
+					}
+				}
+			}
+		}
+		walk(root, 0)
 	}
-	return out, g.Pos(), ""
+	sort.Strings(out)
+	return out, why, pos
 }
 
 func ruleHTMLBlockTable(c *Ctx) {
-	c.Rule("HTMLBLOCK-TABLE", "The tag names that open an HTML block by start condition 1 (and their end tags) and by start condition 6 are exactly CommonMark 0.30's lists: the package-level tables the start conditions range over are written only by the package initialiser, and their elements (string constants, or names of atom constants) equal the specification's sets. 'source' replaced by 'search' (the 0.31 list), or an element dropped, changes which lines may interrupt a paragraph.")
+	c.Rule("HTMLBLOCK-TABLE", "The tag names that open an HTML block by start condition 1 (and their end tags) and by start condition 6 are exactly CommonMark 0.30's lists: the package-level tables that the first and the sixth entry of htmlBlockConditions range over are written only by the package initialiser, and the strings in them (string constants, or names of atom constants; '<', '</' and '>' stripped) equal the specification's sets. 'source' replaced by 'search' (the 0.31 list), or an element dropped, changes which lines may interrupt a paragraph.")
 	p := c.P
-	check := func(name string, want []string, strip func(string) string) {
-		got, pos, why := stringTableOf(p, name)
+	starts, ends := htmlConditionClosures(p)
+	if len(starts) < 6 {
+		c.Undecided("HTMLBLOCK-TABLE", "htmlBlockConditions", token.NoPos, fmt.Sprintf("%d entries recovered from the htmlBlockConditions literal; the specification has seven start conditions", len(starts)))
+		return
+	}
+	check := func(key string, fn *ssa.Function, want []string, pick func(string) (string, bool)) {
+		got, why, pos := tableStringsUsedBy(p, fn)
 		if why != "" {
-			c.Undecided("HTMLBLOCK-TABLE", name, pos, why)
+			c.Undecided("HTMLBLOCK-TABLE", key, pos, why)
 			return
 		}
 		gs := map[string]bool{}
 		for _, g := range got {
-			gs[strip(g)] = true
+			if nm, ok := pick(g); ok {
+				gs[nm] = true
+			}
 		}
 		ws := map[string]bool{}
 		var missing, extra []string
@@ -135,21 +217,31 @@ func ruleHTMLBlockTable(c *Ctx) {
 		}
 		sort.Strings(missing)
 		sort.Strings(extra)
-		c.Check(len(missing) == 0 && len(extra) == 0, "HTMLBLOCK-TABLE", name, pos, fmt.Sprintf("%d names; missing from the specification's list: %v; not in the specification's list: %v", len(got), missing, extra))
+		c.Check(len(missing) == 0 && len(extra) == 0, "HTMLBLOCK-TABLE", key, pos, fmt.Sprintf("%d names; missing from the specification's list: %v; not in the specification's list: %v", len(gs), missing, extra))
 	}
-	check("htmlBlockStarters1", specHTMLBlock1, func(s string) string { return strings.ToLower(strings.TrimPrefix(s, "<")) })
-	check("htmlBlockEnders1", specHTMLBlock1, func(s string) string {
-		return strings.ToLower(strings.TrimSuffix(strings.TrimPrefix(s, "</"), ">"))
-	})
-	check("htmlBlockStarters6", specHTMLBlock6, strings.ToLower)
+	open := func(s string) (string, bool) {
+		if strings.HasPrefix(s, "</") {
+			return "", false
+		}
+		return strings.ToLower(strings.TrimSuffix(strings.TrimPrefix(s, "<"), ">")), s != "" && s != "/>" && s != "<" && s != ">"
+	}
+	closing := func(s string) (string, bool) {
+		if !strings.HasPrefix(s, "</") {
+			return "", false
+		}
+		return strings.ToLower(strings.TrimSuffix(strings.TrimPrefix(s, "</"), ">")), len(s) > 2
+	}
+	check("condition-1:start", starts[0], specHTMLBlock1, open)
+	check("condition-1:end", ends[0], specHTMLBlock1, closing)
+	check("condition-6:start", starts[5], specHTMLBlock6, open)
 }
 
 func init() {
 	addControls(
 		Control{Name: "html-block-list-source-becomes-search", Props: []string{"C06"}, File: "parse_html.go",
-			Old: "\t\tatom.Source.String(),\n", New: "\t\t\"search\",\n", Expect: "HTMLBLOCK-TABLE/htmlBlockStarters6"},
+			Old: "\t\tatom.Source.String(),\n", New: "\t\t\"search\",\n", Expect: "HTMLBLOCK-TABLE/condition-6:start"},
 		Control{Name: "html-block-condition-1-without-textarea", Props: []string{"C06"}, File: "parse_html.go",
-			Old: "\t\t\"<textarea\",\n", New: "", Expect: "HTMLBLOCK-TABLE/htmlBlockStarters1"},
+			Old: "\t\t\"<textarea\",\n", New: "", Expect: "HTMLBLOCK-TABLE/condition-1:start"},
 		Control{Name: "neg-html-block-list-entry-as-literal", Props: []string{"C06"}, File: "parse_html.go", Negative: true,
 			Old: "\t\tatom.Source.String(),\n", New: "\t\t\"source\",\n"},
 	)
